@@ -69,6 +69,33 @@ pub fn cfg_for(driver: &str, tier: &str) -> Option<(Cfg, u32)> {
             c.prune = true;
             (c, if q { 1 } else { 2 })
         }
+        // C01 / C07: two sources that are ready in the same batch, two deviations in the quick tier
+        // already: the callback that runs first may do two things to the other one (disable then
+        // update, update then return a re-arm, ...) before the other one's collected event is served
+        "pairs" => {
+            let mut c = Cfg::base("pairs");
+            c.initial_sets = vec![
+                vec![KindSpec::Ping, KindSpec::Ping],
+                vec![KindSpec::Ping, KindSpec::Chan],
+                vec![KindSpec::Ping, KindSpec::Timer(1)],
+                vec![KindSpec::Timer(1), KindSpec::Timer(1)],
+                vec![FD_RL, KindSpec::Ping],
+                vec![KindSpec::Ping, FD_RO],
+                vec![KindSpec::Stream, KindSpec::Ping],
+                vec![KindSpec::Exec, KindSpec::Ping],
+                vec![KindSpec::SyncChan(1), KindSpec::Ping],
+            ];
+            c.max_actors = 2;
+            c.depth = if q { 4 } else { 5 };
+            c.max_cb_ops = 2;
+            c.top_remove = false;
+            c.top_cause2 = false;
+            c.top_advance = true;
+            c.update_disabled = true;
+            c.prune = true;
+            c.final_dispatches = 1;
+            (c, if q { 2 } else { 3 })
+        }
         // C06: every removal path, slot reuse, every token ever issued used again
         "removal" => {
             let mut c = Cfg::base("removal");
@@ -344,7 +371,7 @@ pub fn run(args: &Args) -> Option<Report> {
         max_depth: cfg.depth,
         shard: args.shard,
         shard_depth: 3,
-        wall_cap_s: args.opt_u("wall", if args.tier == "quick" { 40 } else { 600 }) as f64,
+        wall_cap_s: args.opt_u("wall", if args.tier == "quick" { 120 } else { 600 }) as f64,
         exec_cap: args.opt_u("execs", u64::MAX / 2),
         prune: cfg.prune,
         n_samples: 3,
